@@ -275,8 +275,8 @@ class Arm(Robot):
                 goal_position.gTM(), theta_init,
                 self.rot_tolerance, self.pos_tolerance, max_iters=max_iters)
         theta = fsr.angleMod(theta)
-        self._theta = theta
         if success:
+            self._theta = theta
             self._end_effector_pos_global = goal_position
         else:
             if check:
@@ -291,6 +291,7 @@ class Arm(Robot):
                             self.rot_tolerance, self.pos_tolerance, max_iters=max_iters)
                     i = i + 1
                 if success:
+                    self._theta = theta
                     self._end_effector_pos_global = goal_position
         return theta, success
 
